@@ -211,6 +211,14 @@ static void mode_hist (void)
         live[k] = live[--nlive];
         vh_count ("hist.freed", 1);
         if (check_state (hist, c, -1, 0, 0)) break;
+      } else if (nlive && op >= 92 && live[(int) (s % nlive)].prog) {
+        /* the same program object compiled again in place: its previous code has to go back to the allocator */
+        int k = (int) (s % nlive); OrcProgram *p = live[k].prog; OrcCompileResult res;
+        res = orc_program_compile_for_target (p, vh_chance (&r, 1, 2) ? sse : avx);
+        vh_count ("hist.recompiled_in_place", 1);
+        if (!ORC_COMPILE_RESULT_IS_SUCCESSFUL (res) || !p->orccode || !p->orccode->chunk) { orc_program_free (p); live[k] = live[--nlive]; }
+        else { live[k].code = p->orccode; live[k].size = p->orccode->code_size; live[k].hash = fnv (p->orccode->code, p->orccode->code_size); live[k].out = run_checksum (p->orccode, p, 1); }
+        if (check_state (hist, c, -1, 0, 0)) break;
       } else if (nlive) {
         /* every live function: bytes as at birth, and still computes its result where it was placed */
         int k = (int) vh_randn (&r, nlive);
